@@ -14,6 +14,7 @@ Not decided: semantics of the merged/converted code beyond these guards.
 """
 from .. import thir, tables, guards, absint
 from ..thir import callee_of
+from ..peval import none as peval_none
 from . import c05, c06
 
 EXPR = "nodes::expressions::Expression"
@@ -305,7 +306,7 @@ def receiver(R, ctx):
             call = Struct(FC, {"prefix": prefix, "arguments": Enum(ARGS, "Tuple", {"0": Struct(TUP, {"values": list(extra), "tokens": NONE})}),
                                "method": some(Struct(ID, {"name": "m", "token": NONE})), "tokens": NONE})
             for f in have - set(call.fields):
-                call.fields[f] = NONE
+                call.fields[f] = peval_none()
             pe = peval.PEval(lib, ctx.an)
             try:
                 pe.call_fn(fn, [Struct("#Processor", {}), call])
@@ -402,7 +403,7 @@ def group_values(R, ctx, rid="C16.group-values"):
         vs = []
         for n in names:
             t = B.mk(B.TYPED, name=B.ident(n), token=NONE)
-            t.fields["type"] = NONE
+            t.fields["type"] = peval_none()
             vs.append(t)
         vals = []
         for i, k in enumerate(kinds):
